@@ -169,7 +169,48 @@ def unit_bounded_line_endings(U):
         shutil.rmtree(d, ignore_errors=True)
     U.bounded_result("C14.bounded.line_endings", "directives and features of a file are the same whatever line terminators it uses", "5 terminator patterns x path / from_string", cases, fails)
 
-UNITS = [("bounded.line_endings", unit_bounded_line_endings), ("schema", unit_schema), ("classify", unit_classify), ("own_directives", unit_own_directives)] + PL.c14_units()
+def unit_bounded_two_strings(U):
+    """Bounded: the directives (and features) of a text input are those of THAT text also when other from_string inputs are
+    created before it is read: iterator A built, then iterator / database B from another text, then A consumed or imported"""
+    fails, cases = [], 0
+    text = lambda tag, n: "##gff-version 3\n##source %s\n" % tag + "".join("c\t%s\tgene\t%d\t%d\t.\t+\t.\tID=%s%d\n##note %s%d\n" % (tag, 10 * i + 1, 10 * i + 5, tag, i, tag, i) for i in range(n))
+    expd = lambda tag, n: ["gff-version 3", "source %s" % tag] + ["note %s%d" % (tag, i) for i in range(n)]
+    for second in ("DataIterator", "create_db", "DataIterator, consumed"):
+        for use in ("iterate", "create_db", "create_db + reopen"):
+            cases += 1
+            case = {"first": "A = DataIterator(text A, from_string=True)", "then": "%s(text B, from_string=True)" % second, "then A is": use}
+            import tempfile, os, shutil
+            d = tempfile.mkdtemp()
+            old_tmp = tempfile.tempdir
+            tempfile.tempdir = d                 # the text copies DataIterator leaves behind (known finding of C20) go with the directory
+            try:
+                A = gffutils.DataIterator(text("A", 14), from_string=True)
+                if second == "create_db":
+                    gffutils.create_db(text("B", 3), ":memory:", from_string=True)
+                else:
+                    B = gffutils.DataIterator(text("B", 3), from_string=True)
+                    if second.endswith("consumed"):
+                        list(B)
+                if use == "iterate":
+                    ids = [f.attributes["ID"][0] for f in A]
+                    dirs = list(A.directives)
+                else:
+                    dbfn = ":memory:" if use == "create_db" else os.path.join(d, "a.db")
+                    db = gffutils.create_db(A, dbfn)
+                    if use != "create_db":
+                        db = gffutils.FeatureDB(dbfn)
+                    ids = [f.id for f in db.all_features(order_by="start")]
+                    dirs = list(db.directives)
+                if ids != ["A%d" % i for i in range(14)] or dirs != expd("A", 14):
+                    fails.append(dict(case, expected={"ids": ["A%d" % i for i in range(14)], "directives": expd("A", 14)}, observed={"ids": ids, "directives": dirs}))
+            except Exception as e:
+                fails.append(dict(case, expected="no exception", observed=repr(e)))
+            finally:
+                tempfile.tempdir = old_tmp
+                shutil.rmtree(d, ignore_errors=True)
+    U.bounded_result("C14.bounded.two_text_inputs", "a from_string input keeps its own lines whatever other from_string inputs the process creates before it is read", "3 ways of creating a second text input x 3 uses of the first", cases, fails)
+
+UNITS = [("bounded.two_strings", unit_bounded_two_strings), ("bounded.line_endings", unit_bounded_line_endings), ("schema", unit_schema), ("classify", unit_classify), ("own_directives", unit_own_directives)] + PL.c14_units()
 try:
     from standins import C14 as _S
     UNITS = UNITS + list(_S.UNITS)
